@@ -1139,3 +1139,12 @@ pub fn get_root_node_struct(data: &[u8]) -> Result<TLVElement<'_>, Error> {
 
     Ok(element)
 }
+
+// Verification hook. Inert unless built by the Kani compiler (`cargo kani`, `cargo kani playback`):
+// the harness text lives outside this repository, in `$RS_MATTER_VERIF_DIR`.
+#[cfg(kani)]
+mod verif_kani {
+    #[allow(unused_imports)]
+    use super::*;
+    include!(concat!(env!("RS_MATTER_VERIF_DIR"), "/tlv.rs"));
+}
